@@ -22,18 +22,28 @@ var wo = vlib.WaitOpts{Watchdog: 40 * time.Second, NoTimerCheck: []string{wgtFra
 
 const forcedCases = 96
 
+// inflightPer is one full enumeration of the in-flight class (6 stages x 5 actions x 2 subscriber kinds x 1..3 handlers).
+const inflightPer = 6 * 5 * 2 * 3
+
+func inflightN(tier string) int { return vlib.TierN(tier, 3*inflightPer, 36*inflightPer) }
+
 func init() {
 	vlib.Register(&vlib.Prop{
 		ID:    "C10",
 		Level: "exploration",
-		Cases: func(tier string) int { return forcedCases + vlib.TierN(tier, 600, 320000) },
+		Cases: func(tier string) int { return forcedCases + inflightN(tier) + vlib.TierN(tier, 600, 320000) },
 		Rule: "forced part: the RunHandlers goroutine is parked right after a handler's Started() channel closed; the goroutine that waited on Started() then calls Stop() and Stopped() (must not panic, Stopped() must be non-nil) and, after the release, Stopped() must close; " +
 			"while still parked, a second Run is issued (must be refused with an error); optionally the Run context is cancelled during the start-up (Run must still return nil); x {handler added before Run, added after Run and started by RunHandlers} x {1..3 handlers} x {scripted, GoChannel subscriber} x repeats. " +
-			"random part: lifecycle programs over {AddHandler before/after Run, Run, RunHandlers x1..4 sequentially or concurrently, wait Started, emit a message the instant Running() closes, Stop a subset, emit again, end by stopping all handlers / cancelling the Run context / Close, second Run} with 1..5 handlers, " +
-			"scripted subscribers that count Subscribe calls or one GoChannel, private or shared publishers, yield injection at the router hook points. " +
+			"in-flight part: one message of the target handler is parked at a stage of the pipeline {held by the router's subscriber decorator before it is handed to the handler loop (with the handler loop free, or itself parked with an earlier message so that only the cancel branch is ready), " +
+			"taken by the handler loop but not dispatched, handler function about to start, before publish, before settle}; with the message held there the harness performs {Stop of that handler, Stop of all handlers, cancel of the Run context, Close, the subscriber closing the subscription followed by Stop of the others}, then releases the park(s): " +
+			"x {scripted, GoChannel subscriber} x {1..3 handlers} x repeats. Stopped() must close, the other handlers keep handling, the router closes itself / Close returns and Run returns nil. " +
+			"random part: lifecycle programs over {AddHandler before/after Run, Run, RunHandlers x1..4 sequentially or concurrently, wait Started, emit a message the instant Running() closes, Stop a subset, emit again, end by stopping all handlers / cancelling the Run context / Close / the subscribers closing every subscription, second Run} with 1..5 handlers, " +
+			"scripted subscribers that count Subscribe calls or one GoChannel, private or shared publishers, yield injection at the router hook points; " +
+			"0..3 redundant Run calls on the running router (each must be refused with an error, with a context of its own that is cancelled afterwards) placed at random points of the program {right after Running(), after late AddHandler, after RunHandlers, after the Stops}, after which the program simply continues (RunHandlers must still start the late handlers, Stop/self-close must still work, a further Run is refused again); " +
+			"optionally background traffic: 1..2 publisher goroutines per handler keep emitting while handlers are stopped and the router is ended (Stop / cancel / Close race with messages on their way through the subscriber decorator and the handler loop); optionally a repeated Stop() of an already stopped handler; optionally a RunHandlers call before Run (refused, the program goes on). " +
 			"Oracle: when Running() is observed closed every handler added before Run holds a subscription and a message emitted at that instant is handled; exactly one Subscribe per handler whatever the number of RunHandlers calls; after Started(): Stop() does not panic, Stopped() is non-nil and closes; " +
 			"after stopping a handler, handlers that do not share its publisher still handle new messages; when the last handler ends or the Run context is cancelled Run returns nil (quiescence detector); a second Run returns an error. " +
-			"Non-trivial: forced point reached / program contained RunHandlers repetition, a Stop or a post-Running emission. Distinct = (program, hook fingerprint).",
+			"Non-trivial: forced point reached / in-flight stage reached / program contained RunHandlers repetition, a Stop or a post-Running emission. Distinct = (program, hook fingerprint).",
 		Assumptions: []string{
 			"handlers are not added while the router is shutting down; subscribers honour their context (message.Subscriber contract)",
 			"data races are recorded in the evidence but only panics/wrong outcomes fail this property",
@@ -45,6 +55,9 @@ func init() {
 func run(e *vlib.Env) vlib.Result {
 	if e.Idx < forcedCases {
 		return forced(e)
+	}
+	if j := e.Idx - forcedCases; j < inflightN(e.Tier) {
+		return inflight(e, j)
 	}
 	return random(e)
 }
@@ -60,6 +73,37 @@ type hrec struct {
 	late    bool
 	stopped bool
 	shared  int
+}
+
+// redundantRun calls Run on a router whose first Run was accepted earlier and judges "a second Run returns an error".
+// The call is made on a goroutine of its own: a Run that is (wrongly) accepted blocks until the router closes, or panics.
+func redundantRun(res *vlib.Result, r *message.Router, what, spec string) {
+	type run2 struct {
+		err   error
+		panic any
+	}
+	ch := make(chan run2, 1)
+	rctx, rcancel := context.WithCancel(context.Background())
+	defer rcancel() // the context of a refused Run means nothing to the router
+	go func() {
+		var r2 run2
+		r2.panic = safely(func() { r2.err = r.Run(rctx) })
+		ch <- r2
+	}()
+	oc, d := vlib.WaitUntil(func() bool { return len(ch) > 0 }, wo)
+	switch {
+	case oc == vlib.Stuck:
+		res.Fail("second-run-accepted", "%s did not return an error (still running at quiescence): %s", what, spec)
+		res.Witness = d
+	case oc == vlib.Inconclusive:
+		res.Inconclusive("%s: neither returned nor quiescent", what)
+	default:
+		if r2 := <-ch; r2.panic != nil {
+			res.Fail("second-run-panics", "%s panicked: %v (%s)", what, r2.panic, spec)
+		} else if r2.err == nil {
+			res.Fail("second-run-no-error", "%s returned nil: %s", what, spec)
+		}
+	}
 }
 
 func safely(f func()) (p any) {
@@ -244,6 +288,310 @@ func forced(e *vlib.Env) vlib.Result {
 	return res
 }
 
+var inflightStages = []struct {
+	id, point string
+	holdLoop  bool
+}{
+	{"decorator", "decorator.sub.before_out", false},
+	{"decorator+loop-parked", "decorator.sub.before_out", true},
+	{"loop-received", "router.run.received", false},
+	{"handle-start", "router.handle.start", false},
+	{"before-publish", "router.handle.before_publish", false},
+	{"before-settle", "router.handle.before_settle", false},
+}
+
+// inflight: a message of the target handler is parked at one stage of the pipeline subscriber -> decorator -> handler
+// loop -> handler function while the handler is stopped / the Run context is cancelled / the router is closed.
+// The property's promises do not depend on where a message happens to be at that moment: Stop ends the handler
+// (Stopped() closes), the others keep processing, the router closes itself and Run returns nil.
+func inflight(e *vlib.Env, j int) vlib.Result {
+	rnd := e.R
+	st := inflightStages[j%len(inflightStages)]
+	j /= len(inflightStages)
+	action := []string{"stop", "stop-all", "cancel-ctx", "close", "sub-close"}[j%5]
+	j /= 5
+	useGC := j%2 == 1
+	j /= 2
+	nh := j%3 + 1
+	if st.holdLoop {
+		// a GoChannel subscription has one message in flight at a time: it cannot hand out the next message while the
+		// handler loop holds the previous one un-settled. This stage exists only with the scripted subscriber.
+		useGC = false
+	}
+	ti := rnd.Intn(nh)
+	spec := fmt.Sprintf("stage=%s action=%s gochannel=%v handlers=%d target=h%d", st.id, action, useGC, nh, ti)
+	res := vlib.Result{Class: fmt.Sprintf("inflight/%s/%s", st.id, action), Spec: spec}
+	id := e.ID()
+	r, _ := message.NewRouter(message.RouterConfig{CloseTimeout: time.Hour}, watermill.NopLogger{})
+	ctl := vlib.NewCtl(rnd.Uint64(), 0, 0)
+	defer ctl.Uninstall()
+	var ps *gochannel.GoChannel
+	if useGC {
+		ps = gochannel.NewGoChannel(gochannel.Config{}, watermill.NopLogger{})
+		defer ps.Close()
+	}
+	hrs := make([]*hrec, nh)
+	for k := range hrs {
+		h := &hrec{name: fmt.Sprintf("%s/h%d", id, k), topic: fmt.Sprintf("%s/t%d", id, k)}
+		h.sub = &vlib.Sub{Name: fmt.Sprintf("%s-%d", id, k)}
+		h.pub = &vlib.Pub{Name: fmt.Sprintf("%s-%d", id, k)}
+		var sub message.Subscriber = h.sub
+		if useGC {
+			sub = ps
+		}
+		h.h = r.AddHandler(h.name, h.topic, sub, h.topic+"/out", h.pub, func(m *message.Message) ([]*message.Message, error) {
+			h.handled.Add(1)
+			return []*message.Message{message.NewMessage(m.UUID+"/o", nil)}, nil
+		})
+		hrs[k] = h
+	}
+	T := hrs[ti]
+	ctx, cancel := context.WithCancel(context.Background())
+	defer cancel()
+	runDone := make(chan struct{})
+	var runErr error
+	go func() { defer close(runDone); runErr = r.Run(ctx) }()
+
+	var emitWg sync.WaitGroup
+	var sent []*message.Message // scripted only: the very messages handed to the router (their settlement is visible)
+	emit := func(h *hrec, n string) bool {
+		uuid := fmt.Sprintf("%s/%s", h.name, n)
+		if useGC {
+			return ps.Publish(h.topic, message.NewMessage(uuid, nil)) == nil
+		}
+		sp := h.sub.SubFor(h.topic)
+		if sp == nil {
+			return false
+		}
+		m := message.NewMessage(uuid, nil)
+		m.SetContext(sp.Ctx)
+		sent = append(sent, m)
+		emitWg.Add(1)
+		go func() { defer emitWg.Done(); sp.Send(m) }()
+		return true
+	}
+	var parks []*vlib.Park
+	releaseAll := func() {
+		for _, p := range parks {
+			p.Release()
+		}
+	}
+	teardown := func() {
+		releaseAll()
+		cancel()
+		done := make(chan struct{})
+		go func() { r.Close(); close(done) }()
+		vlib.WaitClosed(done, wo)
+		for _, h := range hrs {
+			h.sub.Close()
+		}
+		ed := make(chan struct{})
+		go func() { emitWg.Wait(); close(ed) }()
+		vlib.WaitClosed(ed, wo)
+		res.Hooks = ctl.Counts()
+	}
+	unreached := func(why string) vlib.Result {
+		teardown()
+		if res.Verdict == "" {
+			res.Verdict = vlib.Unreached
+			res.Reason = why + ": " + spec
+		}
+		res.Sig = vlib.Sig(spec, "unreached")
+		return res
+	}
+	if oc, d := vlib.WaitClosed(r.Running(), wo); oc != vlib.Done {
+		if oc == vlib.Stuck {
+			res.Fail("running-never-closed", "Running() never closed (quiescent): %s", spec)
+			res.Witness = d
+		} else {
+			res.Inconclusive("Running(): neither closed nor quiescent")
+		}
+		teardown()
+		return res
+	}
+	// put the message(s) in place
+	parkMsg := func(point, n string) *vlib.Park {
+		uuid := fmt.Sprintf("%s/%s", T.name, n)
+		p := ctl.ParkAt(point, func(a, b string) bool { return b == uuid }, 0)
+		parks = append(parks, p)
+		if !emit(T, n) {
+			return nil
+		}
+		if oc, _ := vlib.WaitUntil(p.HasArrived, wo); oc != vlib.Done {
+			return nil
+		}
+		return p
+	}
+	var loopPark *vlib.Park
+	if st.holdLoop {
+		// the handler loop is parked with an earlier message: it cannot take the next one from the decorator
+		if loopPark = parkMsg("router.run.received", "m0"); loopPark == nil {
+			return unreached("handler loop did not reach router.run.received")
+		}
+	}
+	held := parkMsg(st.point, "m1")
+	if held == nil {
+		return unreached("message did not reach " + st.point)
+	}
+	res.Count("inflight_reached", 1)
+	res.Count("inflight_"+st.id, 1)
+
+	// the action, with the message still held
+	events := 0
+	closeDone := make(chan struct{})
+	subClosed := make(chan struct{})
+	var stopOrder []int
+	switch action {
+	case "stop":
+		stopOrder = []int{ti}
+	case "stop-all":
+		stopOrder = rnd.Perm(nh)
+	case "cancel-ctx":
+		cancel()
+	case "close":
+		go func() { r.Close(); close(closeDone) }()
+		// Close is asynchronous: let it get as far as it can while the message is held
+		if !useGC {
+			if sp := T.sub.SubFor(T.topic); sp != nil {
+				done := sp.Ctx.Done()
+				vlib.WaitUntil(func() bool {
+					select {
+					case <-done:
+						return true
+					default:
+						return false
+					}
+				}, wo)
+			}
+		}
+		vlib.Settle(wo)
+	case "sub-close":
+		// the subscriber side ends the target's subscription (connection lost, broker client closed)
+		go func() {
+			if useGC {
+				ps.Close()
+			} else {
+				T.sub.Close()
+			}
+			close(subClosed)
+		}()
+		vlib.Settle(wo)
+	}
+	for _, k := range stopOrder {
+		events++
+		if p := safely(func() { hrs[k].h.Stop() }); p != nil {
+			res.Fail("stop-panics-after-started", "Stop() panicked: %v (%s)", p, spec)
+		}
+		hrs[k].stopped = true
+	}
+	// let the held message go on
+	held.Release()
+	if loopPark != nil {
+		// the decorator now sees only the cancelled context / its own closing; it gives the message back (Nack) and ends.
+		// Only then may the handler loop continue.
+		m1 := (*message.Message)(nil)
+		if !useGC && len(sent) > 0 {
+			m1 = sent[len(sent)-1]
+		}
+		vlib.WaitUntil(func() bool { return m1 != nil && vlib.Settled(m1) != "" }, wo)
+		if m1 != nil {
+			res.Count("inflight_held_message_"+orNone(vlib.Settled(m1)), 1)
+		}
+		loopPark.Release()
+	}
+
+	// what the property promises, wherever the message was
+	for _, k := range stopOrder {
+		h := hrs[k]
+		events++
+		stc := h.h.Stopped()
+		if stc == nil {
+			res.Fail("stopped-nil-after-started", "Stopped() is nil after Started() closed: %s", spec)
+			continue
+		}
+		if oc, d := vlib.WaitClosed(stc, wo); oc == vlib.Stuck && !res.Failed() {
+			res.Fail("stopped-never-closes", "Stop() was called while a message of handler %s was in flight at stage %s; Stopped() of %s never closed (quiescent): %s", T.name, st.id, h.name, spec)
+			res.Witness = d
+		} else if oc == vlib.Inconclusive {
+			res.Inconclusive("Stopped(): neither closed nor quiescent")
+		}
+	}
+	if action == "stop" && !res.Failed() {
+		for _, h := range hrs {
+			if h.stopped {
+				continue
+			}
+			events++
+			want := h.handled.Load() + 1
+			if !emit(h, "after-stop") {
+				res.Fail("others-broken-after-stop", "handler %s lost its subscription after another handler was stopped: %s", h.name, spec)
+				continue
+			}
+			if oc, d := vlib.WaitUntil(func() bool { return h.handled.Load() >= want }, wo); oc == vlib.Stuck {
+				res.Fail("others-broken-after-stop", "handler %s (not stopped, own publisher) did not handle a new message after %s was stopped with a message in flight at %s (quiescent): %s", h.name, T.name, st.id, spec)
+				res.Witness = d
+			} else if oc == vlib.Inconclusive {
+				res.Inconclusive("after-stop message: neither handled nor quiescent")
+			}
+		}
+	}
+	if (action == "stop" || action == "sub-close") && !res.Failed() {
+		// end the program: the remaining handlers are stopped (or, with a single handler, the last one has ended already)
+		if action == "sub-close" {
+			vlib.WaitClosed(subClosed, wo)
+			T.stopped = true
+		}
+		for _, h := range hrs {
+			if !h.stopped {
+				h.h.Stop()
+				h.stopped = true
+			}
+		}
+	}
+	if !res.Failed() && res.Verdict == "" {
+		events++
+		what := map[string]string{"stop": "the last handler ended", "stop-all": "the last handler ended", "cancel-ctx": "the Run context was cancelled", "close": "Close was called",
+			"sub-close": "the last handler ended (subscription closed by the subscriber, the others stopped)"}[action]
+		if action == "close" {
+			if oc, d := vlib.WaitClosed(closeDone, wo); oc == vlib.Stuck {
+				res.Fail("never-returned", "Close never returned (quiescent); a message was in flight at stage %s when it was called: %s", st.id, spec)
+				res.Witness = d
+			}
+		}
+		if !res.Failed() {
+			if oc, d := vlib.WaitClosed(runDone, wo); oc == vlib.Stuck {
+				res.Fail("run-never-returned", "%s while a message was in flight at stage %s: Run never returned (quiescent): %s", what, st.id, spec)
+				res.Witness = d
+			} else if oc == vlib.Inconclusive {
+				res.Inconclusive("Run: neither returned nor quiescent")
+			} else if runErr != nil {
+				res.Fail("run-error", "%s while a message was in flight at stage %s: Run returned %v instead of nil: %s", what, st.id, runErr, spec)
+			}
+		}
+		if !res.Failed() && res.Verdict == "" {
+			if oc, _ := vlib.WaitUntil(func() bool { return r.IsClosed() }, wo); oc == vlib.Stuck {
+				res.Fail("router-not-closed", "Run returned but the router is not closed: %s", spec)
+			}
+			redundantRun(&res, r, "a second Run after the router closed", spec)
+		}
+	}
+	teardown()
+	res.Events = events
+	res.NonTrivial = true
+	res.Sig = vlib.Sig(spec, e.Idx/inflightPer, ctl.Fingerprint())
+	res.Sample = map[string]any{"program": spec}
+	return res
+}
+
+func orNone(s string) string {
+	if s == "" {
+		return "unsettled"
+	}
+	return s
+}
+
+var refusedPoints = []string{"after-running", "after-add", "after-runhandlers", "after-stops"}
+
 func b2i(b bool) int {
 	if b {
 		return 1
@@ -263,20 +611,43 @@ func random(e *vlib.Env) vlib.Result {
 	rhCalls := rnd.Range(1, 4)
 	rhConcurrent := rnd.Bool()
 	sharePub := rnd.Chance(0.3)
-	ending := []string{"stop-all", "cancel-ctx", "close"}[rnd.Intn(3)]
+	ending := []string{"stop-all", "cancel-ctx", "close", "subs-closed"}[rnd.Intn(4)]
 	nstop := 0
 	if nh > 1 {
 		nstop = rnd.Intn(nh)
 	}
 	yieldP := []float64{0, 0.3, 0.6}[rnd.Intn(3)]
-	spec := fmt.Sprintf("handlers=%d late=%d gochannel=%v runHandlersCalls=%d concurrent=%v sharedPublisher=%v stop=%d ending=%s yield=%.1f", nh, nlate, useGC, rhCalls, rhConcurrent, sharePub, nstop, ending, yieldP)
+	// redundant Run calls on the running router, each at one of the points of the program; the program goes on afterwards
+	refusedAt := map[string]int{}
+	refusedSpec := ""
+	if rnd.Chance(0.6) {
+		for n := rnd.Range(1, 3); n > 0; n-- {
+			w := refusedPoints[rnd.Intn(len(refusedPoints))]
+			refusedAt[w]++
+		}
+		for _, w := range refusedPoints {
+			if refusedAt[w] > 0 {
+				refusedSpec += fmt.Sprintf("%s:%d,", w, refusedAt[w])
+			}
+		}
+	}
+	// background traffic: publishers keep emitting while handlers are stopped / the router is ended
+	traffic := 0
+	if rnd.Chance(0.4) {
+		traffic = rnd.Range(1, 2)
+	}
+	trafficN := rnd.Range(10, 60)
+	stopTwice := rnd.Chance(0.3)
+	earlyRH := rnd.Chance(0.15)
+	spec := fmt.Sprintf("handlers=%d late=%d gochannel=%v runHandlersCalls=%d concurrent=%v sharedPublisher=%v stop=%d ending=%s yield=%.1f refusedRun=[%s] traffic=%dx%d stopTwice=%v runHandlersBeforeRun=%v", nh, nlate, useGC, rhCalls, rhConcurrent, sharePub, nstop, ending, yieldP, refusedSpec, traffic, trafficN, stopTwice, earlyRH)
 	res := vlib.Result{Class: fmt.Sprintf("random/gochannel=%v/%s", useGC, ending), Spec: spec}
 	r, _ := message.NewRouter(message.RouterConfig{CloseTimeout: time.Hour}, watermill.NopLogger{})
 	ctl := vlib.NewCtl(rnd.Uint64(), yieldP, 80)
 	defer ctl.Uninstall()
 	var ps *gochannel.GoChannel
 	if useGC {
-		ps = gochannel.NewGoChannel(gochannel.Config{}, watermill.NopLogger{})
+		// with background traffic a publisher waits for the ack before it sends its next message (bounded in-flight set)
+		ps = gochannel.NewGoChannel(gochannel.Config{BlockPublishUntilSubscriberAck: traffic > 0}, watermill.NopLogger{})
 		defer ps.Close()
 	}
 	shared := &vlib.Pub{Name: id + "-shared"}
@@ -335,14 +706,27 @@ func random(e *vlib.Env) vlib.Result {
 		res.Sample = map[string]any{"program": "cancel the context, then Run: " + spec}
 		return res
 	}
+	if earlyRH {
+		// RunHandlers on a router that is not running yet is documented to be refused; whatever it answers, the
+		// program goes on and Run must still start every handler exactly once
+		safely(func() { r.RunHandlers(ctx) })
+		res.Count("runhandlers_before_run", 1)
+	}
 	runDone := make(chan struct{})
 	var runErr error
 	go func() { defer close(runDone); runErr = r.Run(ctx) }()
 
 	events := 0
 	emitWg := sync.WaitGroup{}
+	var trafficSent atomic.Int64
 	emit := func(h *hrec, n string) bool {
 		uuid := fmt.Sprintf("%s/%s", h.name, n)
+		if useGC && traffic > 0 {
+			// Publish blocks until the ack: never from the harness' main goroutine
+			emitWg.Add(1)
+			go func() { defer emitWg.Done(); ps.Publish(h.topic, message.NewMessage(uuid, nil)) }()
+			return true
+		}
 		if useGC {
 			return ps.Publish(h.topic, message.NewMessage(uuid, nil)) == nil
 		}
@@ -353,6 +737,15 @@ func random(e *vlib.Env) vlib.Result {
 		emitWg.Add(1)
 		go func() { defer emitWg.Done(); sp.Deliver(message.NewMessage(uuid, nil), 0) }()
 		return true
+	}
+	// a Run on the running router: refused with an error, and nothing else changes (the rest of the program is the check of that)
+	refusedRuns := 0
+	refused := func(where string) {
+		for n := refusedAt[where]; n > 0 && !res.Failed(); n-- {
+			refusedRuns++
+			events++
+			redundantRun(&res, r, fmt.Sprintf("Run call #%d on the running router (%s)", refusedRuns+1, where), spec)
+		}
 	}
 	expectHandled := func(h *hrec, want int32, clause, what string) {
 		events++
@@ -366,8 +759,12 @@ func random(e *vlib.Env) vlib.Result {
 
 	// Running(): every handler added before Run holds its subscription; a message emitted at that instant is handled
 	if oc, d := vlib.WaitClosed(r.Running(), wo); oc != vlib.Done {
-		res.Fail("running-never-closed", "Running() never closed (%v): %s", oc, spec)
-		res.Witness = d
+		if oc == vlib.Stuck {
+			res.Fail("running-never-closed", "Running() never closed (quiescent): %s", spec)
+			res.Witness = d
+		} else {
+			res.Inconclusive("Running(): neither closed nor quiescent")
+		}
 		return res
 	}
 	for k := 0; k < nh-nlate; k++ {
@@ -384,10 +781,12 @@ func random(e *vlib.Env) vlib.Result {
 		expectHandled(hrs[k], 1, "message-lost-after-running", "message emitted the instant Running() closed")
 	}
 
+	refused("after-running")
 	// late handlers + RunHandlers xN
 	for k := nh - nlate; k < nh; k++ {
 		add(k)
 	}
+	refused("after-add")
 	if nlate > 0 && !res.Failed() {
 		var wg sync.WaitGroup
 		var rhErr atomic.Value
@@ -430,6 +829,38 @@ func random(e *vlib.Env) vlib.Result {
 	if !res.Failed() {
 		for c := 0; c < rhCalls; c++ {
 			r.RunHandlers(ctx)
+		}
+	}
+	refused("after-runhandlers")
+	// background traffic from here on
+	if traffic > 0 && !res.Failed() {
+		for _, h := range hrs {
+			h := h
+			var sp *vlib.Subscription
+			if !useGC {
+				if sp = h.sub.SubFor(h.topic); sp == nil {
+					continue
+				}
+			}
+			for t := 0; t < traffic; t++ {
+				t := t
+				emitWg.Add(1)
+				go func() {
+					defer emitWg.Done()
+					for n := 0; n < trafficN; n++ {
+						m := message.NewMessage(fmt.Sprintf("%s/bg%d.%d", h.name, t, n), nil)
+						if useGC {
+							// blocks until acked, or until the topic has no subscriber any more
+							if ps.Publish(h.topic, m) != nil {
+								return
+							}
+						} else if copies, _ := sp.Deliver(m, 0); len(copies) == 0 {
+							return // the subscription has ended
+						}
+						trafficSent.Add(1)
+					}
+				}()
+			}
 		}
 	}
 	// Stop a subset right away; the others keep working
@@ -488,7 +919,15 @@ func random(e *vlib.Env) vlib.Result {
 		}
 		h.stopped = true
 		stoppedPubs[h.pub] = true
+		if stopTwice && !res.Failed() {
+			// "once Started() is closed Stop() and Stopped() are usable": also a second time
+			if p := safely(func() { h.h.Stop() }); p != nil {
+				res.Fail("stop-panics-after-started", "a repeated Stop() of a stopped handler panicked: %v (%s)", p, spec)
+			}
+			res.Count("repeated_stop", 1)
+		}
 	}
+	refused("after-stops")
 	for _, h := range hrs {
 		if res.Failed() || h.stopped || stoppedPubs[h.pub] || h == busy {
 			continue
@@ -520,6 +959,18 @@ func random(e *vlib.Env) vlib.Result {
 			cancel()
 		case "close":
 			go r.Close()
+		case "subs-closed":
+			// every remaining handler ends because its subscription is closed by the subscriber side
+			if useGC {
+				emitWg.Add(1)
+				go func() { defer emitWg.Done(); ps.Close() }()
+			} else {
+				for _, h := range hrs {
+					if !h.stopped {
+						h.sub.Close()
+					}
+				}
+			}
 		}
 		if oc, d := vlib.WaitClosed(runDone, wo); oc == vlib.Stuck {
 			res.Fail("run-never-returned", "Run never returned after ending=%s (quiescent): %s", ending, spec)
@@ -531,9 +982,7 @@ func random(e *vlib.Env) vlib.Result {
 			if oc, _ := vlib.WaitUntil(func() bool { return r.IsClosed() }, wo); oc == vlib.Stuck {
 				res.Fail("router-not-closed", "Run returned but the router is not closed: %s", spec)
 			}
-			if err := r.Run(context.Background()); err == nil {
-				res.Fail("second-run-no-error", "a second Run returned nil: %s", spec)
-			}
+			redundantRun(&res, r, "a second Run after the router closed", spec)
 			events++
 		}
 	}
@@ -562,6 +1011,14 @@ func random(e *vlib.Env) vlib.Result {
 	}
 	res.Events = events
 	res.Hooks = ctl.Counts()
+	res.Count("refused_run_calls", refusedRuns)
+	if refusedRuns > 0 {
+		res.Count("programs_continued_after_refused_run", 1)
+	}
+	if traffic > 0 {
+		res.Count("programs_with_background_traffic", 1)
+		res.Count("background_messages_sent", int(trafficSent.Load()))
+	}
 	res.NonTrivial = nlate > 0 || nstop > 0 || nh-nlate > 0
 	res.Sig = vlib.Sig(spec, ctl.Fingerprint())
 	res.Sample = map[string]any{"program": spec}
